@@ -9,8 +9,10 @@
              getInstancesBySecureChannelID hands out to the dispatcher WITHOUT the lock: it is race free only as long as
              nobody writes such an array in place (today: fresh slice on expiry, append beyond the visible length).  NOT covered (see the check's notes): channelInstance.sequenceNumber (one spot in open, see
              C36_sequence_number_unguarded_only_in_open), channelInstance.algo (the receive path reads it lock-free; it
-             is ordered by the OpenSecureChannel handshake), SecureChannel.openingInstance / requestID (ordered by
-             message causality, not by a lock), and every field not listed. *)
+             is ordered by the OpenSecureChannel handshake), SecureChannel.openingInstance / requestID (the client side
+             now goes through openingMu / openingInstanceMu / requestIDMu, but the SERVER side of
+             handleOpenSecureChannelRequest reads and writes them lock-free; a client channel never runs that function
+             and a server channel never runs open(): a role separation a lockset cannot see), and every field not listed. *)
 From Coq Require Import Bool String List.
 From Opcua Require Import Model.Lockset Proofs.LocksetProofs Gen.LockSites.
 Import ListNotations.
